@@ -1729,6 +1729,12 @@ int32_t tls13EncodeResponseServer(ssl_t *ssl, psBuf_t *out, uint32 *requiredLen)
             Memset(&ssl->sec.tls13KsState, 0, sizeof(ssl->sec.tls13KsState));
             ssl->sec.tls13UsingPsk = PS_FALSE;
             ssl->extFlags.got_pre_shared_key = 0;
+            /* Whatever the first ClientHello offered is offered again, or
+               not, in the second one: nothing selected from the first may
+               survive (a PSK left over here was used although the second
+               ClientHello named an identity we do not know). */
+            ssl->sec.tls13ChosenPsk = NULL;
+            ssl->sec.tls13BindersLen = 0;
             rc = tls13TranscriptHashReinit(ssl); /* See 4.4.1. */
             if (rc < 0)
             {
